@@ -757,6 +757,14 @@ class ContextStateTransaction(_TransactionBase):
             # prevent this for simplicity reasons
             raise ApiUsageError('Transaction only handles context states!')
 
+        if state_container.Handle is not None:
+            if state_container.Handle in self._state_updates:
+                msg = f'Context State {state_container.Handle} already in updated set!'
+                raise ValueError(msg)
+            if self._mdib.context_states.handle.get_one(state_container.Handle, allow_none=True) is not None:
+                msg = f'ContextState with handle={state_container.Handle} already exists'
+                raise ValueError(msg)
+
         if state_container.descriptor_container is None:
             descr = self._mdib.descriptions.handle.get_one(state_container.DescriptorHandle)
             state_container.descriptor_container = descr
